@@ -11,6 +11,7 @@ git diff -- src > "$OUT/patch.diff"
 cp "$DEMO" "$OUT/" 2>/dev/null
 cp notes.txt "$OUT/agent_notes.txt" 2>/dev/null
 export PYTHONPATH="$WT/src"
+SCR=$(mktemp -d /tmp/try_seed.XXXXXX); export TMPDIR="$SCR"
 echo "== demo with the change"; /venv/bin/python "$DEMO" > "$OUT/demo_with.log" 2>&1; W=$?; echo "exit=$W"
 git stash -q -- src
 echo "== demo without the change"; /venv/bin/python "$DEMO" > "$OUT/demo_without.log" 2>&1; WO=$?; echo "exit=$WO"
@@ -18,6 +19,7 @@ git stash pop -q
 if [ "${SKIP_SUITE:-0}" = 1 ]; then S="skipped"; else
 echo "== test suite with the change"; /venv/bin/python -m pytest -q -p no:cacheprovider --timeout=900 -n 8 > "$OUT/suite.log" 2>&1; tail -1 "$OUT/suite.log"; S=$(tail -1 "$OUT/suite.log"); fi
 unset PYTHONPATH
+unset TMPDIR; rm -rf "$SCR"
 echo "== property check against the change (in /repo)"
 cd /repo && git apply "$OUT/patch.diff" || { echo "PATCH DOES NOT APPLY"; exit 8; }
 cd /verif && bin/check "$PID" --tier quick > "$OUT/check.log" 2>&1; C=$?
